@@ -13,9 +13,9 @@ from ..terms import Leaf, Bin
 
 PROP = "C05"
 IMPORTS = "Py Lang Defs Cond Dsl Check DocSem PathSpec Path Cast RuleDefs RuleSpec Rule Inst Run RunRule"
-THEOREMS = ['C05_verdict', 'C05_failures_exact', 'C05_reason', 'C05_paths_true']
+THEOREMS = ['C05_verdict', 'C05_failures_exact', 'C05_reason', 'C05_paths_true', 'C05_rule_report']
 FACT_LEMMAS = ['Tie.tie_build', 'Tie.tie_call', 'C01Proof.caught_call_ok']
-DEPENDS = ['Py.v', 'Lang.v', 'Defs.v', 'Cond.v', 'Dsl.v', 'Check.v', 'DocSem.v', 'Inst.v', 'Gen/TablesGen.v', 'Gen/CallablesGen.v', 'Proofs/Tie.v', 'Proofs/PyFacts.v', 'Proofs/C01Proof.v', 'Proofs/C02Proof.v', 'Path.v', 'PathSpec.v', 'Run.v', 'Proofs/C03Proof.v', 'Proofs/C04Proof.v', 'Cast.v', 'RuleDefs.v', 'RuleSpec.v', 'RuleTerms.v', 'Rule.v', 'RunRule.v', 'Proofs/RuleProof.v', 'Proofs/SchemaSpecProof.v', 'Properties/C05.v']
+DEPENDS = ['Py.v', 'Lang.v', 'Defs.v', 'Cond.v', 'Dsl.v', 'Check.v', 'DocSem.v', 'Inst.v', 'Gen/TablesGen.v', 'Gen/CallablesGen.v', 'Proofs/Tie.v', 'Proofs/PyFacts.v', 'Proofs/C01Proof.v', 'Proofs/C02Proof.v', 'Path.v', 'PathSpec.v', 'Run.v', 'Proofs/C03Proof.v', 'Proofs/C04Proof.v', 'Cast.v', 'RuleDefs.v', 'RuleSpec.v', 'RuleTerms.v', 'Rule.v', 'RunRule.v', 'Proofs/RuleProof.v', 'Proofs/SchemaSpecProof.v', 'Report.v', 'RunReport.v', 'Proofs/ReportProof.v', 'Properties/C05.v']
 ASSUMPTIONS = ["Layer P models CPython's operators (pysem)"]
 
 
@@ -114,12 +114,48 @@ def summarise(cases, k_bad, o_bad, nk, no, err, rule):
     return res
 
 
+def report_cases(seed, n):
+    """Correspondence for RuleTest.get_failures_string(): the model (Report.v) assembles it from is_valid / tested and, per
+    failure, repr(path), repr(value) and the reason lines the implementation gives."""
+    g = Gen(seed + 77)
+    rg = RuleGen(CondGen(g))
+    out = []
+    for _ in range(n):
+        doc = g.document(3, 4)
+        rt = rg.rule(doc)
+        try:
+            t = rt.build().test(copy_value(doc))
+            rep = t.get_failures_string()
+            fs = "[" + "; ".join("(" + E.enc_str(repr(f.path)) + ", " + E.enc_str(repr(f.value)) + ", [" +
+                                 "; ".join(E.enc_str(x) for x in f.reasons) + "])" for f in t.failures) + "]"
+            model = f"(run_rule_report ({E.enc_bool(bool(t.is_valid))}, {E.enc_bool(bool(t.tested))}, {fs}))"
+            if len(model) > 6000:
+                continue
+            o = ("ok", rep)
+            out.append(Case({"kind": "rule-report", "rule": rt.descr()[:300], "doc": jval(doc), "impl": repr(rep)[:300], "coq": model[:6000]},
+                            model, None, E.enc_res(o), o, not t.is_valid, key=("rule-report", model[:300])))
+        except Exception:
+            continue
+    return out
+
+
 def run(tier, seed, model_ok, spec_ok, replay=None):
     cases = gen(seed, 600 if tier == "quick" else 15000)
     k_bad, o_bad, nk, no, err = run_passes("c05", IMPORTS, cases, model_ok, spec_ok)
-    return summarise(cases, k_bad, o_bad, nk, no, err,
-                     "rules = (document-guided path of 0-3 parts, value-kind condition tree of depth <= 2 with arguments "
-                     "drawn from the selected nodes) x documents; non-trivial = tested and invalid (some selected node fails)")
+    res = summarise(cases, k_bad, o_bad, nk, no, err,
+                    "rules = (document-guided path of 0-3 parts, value-kind condition tree of depth <= 2 with arguments "
+                    "drawn from the selected nodes) x documents; non-trivial = tested and invalid (some selected node fails); plus the "
+                    "text of RuleTest.get_failures_string() against the model's assembly (Report.v) on further rules")
+    rcases = report_cases(seed, 150 if tier == "quick" else 3000)
+    rk_bad, _, rnk, _, rerr = run_passes("c05r", "Py Check Report RunReport", rcases, model_ok, False)
+    res["k_cases"] += rnk
+    res["evaluations"] += len(rcases)
+    res["k_mismatch"] += [rcases[i].descr for i in rk_bad]
+    res["distribution"]["rule-reports"] = len(rcases)
+    res["distribution"]["rule-reports-with-failures"] = sum(1 for c in rcases if c.nontrivial)
+    if rerr and not res["k_mismatch"]:
+        res["k_mismatch"] = [{"coq-eval-error": rerr}]
+    return res
 
 
 def matches_known(known, case):
